@@ -78,7 +78,7 @@ struct Json {
         os << "]"; return *this;
     }
     Json &raw(const char *k, const std::string &json) { key(k); os << json; return *this; }
-    void emit() { os << "}"; std::cout << os.str() << "\n"; }
+    void emit() { os << "}"; std::cout << os.str() << "\n" << std::flush; } // flushed: the case at which a process dies stays identifiable
     std::string str() { return os.str() + "}"; }
 };
 
